@@ -1,4 +1,5 @@
 import Tickit.Model.Bindings
+import Tickit.Model.BindingsRoot
 import Tickit.Gen.Bindings
 import Tickit.Driver.Common
 /-
@@ -49,6 +50,16 @@ def parsePenOp (s : String) : Option PenOp :=
     some (.copyAttr tm)
   | 'd' :: rest => (String.ofList rest).toInt?.map fun n => .desc n none
   | 'D' :: rest => (String.ofList rest).toInt?.map fun n => .desc n (some 0x112233)
+  -- "hi-<n>": the high-intensity colour n + 8, rejected for n > 7
+  | 'h' :: rest => (String.ofList rest).toNat?.map fun n => if n > 7 then .rejected else .desc (Int.ofNat n + 8) none
+  -- colour names: n0 "red" (1), n1 "hi-red" (9), n2 "grey" (8), n3 "hi-grey" (8: only the first eight have a high-intensity form),
+  -- n4 an unknown name (rejected), n5 "blue#112233"
+  | ['n', '0'] => some (.desc 1 none)
+  | ['n', '1'] => some (.desc 9 none)
+  | ['n', '2'] => some (.desc 8 none)
+  | ['n', '3'] => some (.desc 8 none)
+  | ['n', '4'] => some .rejected
+  | ['n', '5'] => some (.desc 4 (some 0x112233))
   | _ => none
 
 def parseAction (s : String) : Option Action :=
@@ -86,9 +97,16 @@ def showEv : Ev → String
   | .occBegin _ _ _ => ""
   | .occEnd _ => ""
 
-def showSegment (newLog oldLog : List Ev) : String :=
+/-- is the event part of the application's call log?  (the handlers window.c binds on the terminal are not the harness's) -/
+def isUserEv (lib : List Nat) : Ev → Bool
+  | .enter key .. => !lib.contains key
+  | .leave key .. => !lib.contains key
+  | .bound key .. => !lib.contains key
+  | _ => true
+
+def showSegment (newLog oldLog : List Ev) (lib : List Nat := []) : String :=
   let seg := (newLog.take (newLog.length - oldLog.length)).reverse
-  String.join (seg.map showEv)
+  String.join ((seg.filter (isUserEv lib)).map showEv)
 
 /-! ### the executable specification -/
 
@@ -125,6 +143,9 @@ inductive Frame
   /-- a bind waiting for its identifier -/
   | bindw (ev : Int) (first : Bool) (flags : BFlags) (h : Nat)
   | nop
+  /-- an operation of the library's own on the owner's bindings (a root window binding or unbinding its handlers on the
+      terminal): no handler of the application may be called -/
+  | quiet (what : String)
   /-- a pen operation in progress: the statements still to run (occurrences it delivers sit on top of it) -/
   | prog (steps : List SStep)
   /-- a running handler -/
@@ -148,6 +169,8 @@ structure S where
   gone : Bool := false
   /-- the pen's attributes, freeze count and pending-change flag, as the specification tracks them -/
   pen : PenSt := {}
+  /-- harness bookkeeping: references the harness holds on the root window of the terminal (0: there is none) -/
+  rootRefs : Nat := 0
   deriving Repr
 
 def S.invOf (s : S) (h : Nat) : Nat := (s.inv.lookup h).getD 0
@@ -261,6 +284,7 @@ def closeCtx1 (s : S) : Except String S :=
   | .des [] :: rest => .ok { s with stack := rest, live := [], gone := true }
   | .bindw .. :: _ => .error "bind returned no identifier"
   | .nop :: rest => .ok { s with stack := rest }
+  | .quiet _ :: rest => .ok { s with stack := rest }
   | .inv .. :: _ => .error "malformed log: handler still running at the end of its context"
   | .prog _ :: _ => .error "malformed log: pen operation"
   | [] => .error "malformed log: no open context"
@@ -375,6 +399,10 @@ def stepTok (own : Owner) (beh : Behaviour) (s : S) (t : Tok) : Except String S 
           else if fl ≠ 6 then .error s!"destroy notification of slot {slot} has flags {fl}"
           else .ok { (s.removeLive slot) with stack := frame :: .des owed :: rest }
         | .des [] :: _ => .error s!"destroy_notifies: slot {slot} notified but nothing (more) was owed"
+        | .quiet what :: _ =>
+          if s.isLive slot then
+            .error s!"unbind_notify_once: the live binding of slot {slot} was called with flags {fl} during {what}: nobody asked for it to be unbound (or run)"
+          else .error s!"handler of slot {slot}, which is not bound, called with flags {fl} during {what}"
         | _ => .error s!"handler of slot {slot} called where no call can come from"
   | .leave r =>
     match s.stack with
@@ -444,18 +472,34 @@ inductive Status
   deriving Repr
 
 structure DSt where
-  kind : Nat := 0          -- 1 pen, 2 term
+  kind : Nat := 0          -- 1 pen, 2 term, 3 twin (terminal with root windows coming and going), 4 win (root window)
+  /-- twin: the root window on the terminal -/
+  root : Option Root := none
+  libKeys : List Nat := []
   behs : BehTable := []
   st : St := St.init
   status : Status := .fresh
   spec : Spec.S := {}
   specBroken : Bool := false
+  /-- twin: the application has unbound a binding of the root window's (it handed `unbind` a stale identifier of its own that
+      window.c had since been given): from here on the history is outside the assumption `Intact`; model and code are still
+      compared, the specification is no longer evaluated -/
+  outside : Bool := false
 
 def ownerOf (k : Nat) : Owner :=
   if k = 1 then { Owner.pen with holdsRef := Gen.Bindings.penEmitterRef }
+  else if k = 4 then Owner.win
   else { Owner.term with holdsRef := Gen.Bindings.termEmitterRef }
 
 def FUEL : Nat := 1000000
+
+def parseRootOp (ts : List String) : Option WOp :=
+  match ts with
+  | ["rootnew"] => some .rootNew
+  | ["rootref"] => some .rootRef
+  | ["rootunref"] => some .rootUnref
+  | ["rootclose"] => some .rootClose
+  | _ => none
 
 def parseOp (ts : List String) : Option Op :=
   match ts with
@@ -484,13 +528,14 @@ def specBegin (own : Owner) (op : Op) (s : Spec.S) : Spec.S :=
 def step (d : DSt) (ts : List String) (impl : String) : DSt × String × String :=
   match ts with
   | ["new", k] =>
-    let kind := if k = "pen" then 1 else 2
+    let kind := if k = "pen" then 1 else if k = "twin" then 3 else if k = "win" then 4 else 2
     ({ kind := kind, status := .run }, "ok", if impl = "ok" then "" else "harness could not create the owner")
   | "beh" :: h :: n :: ret :: acts =>
     match d.status, h.toNat?, n.toNat?, ret.toInt?, acts.mapM parseAction with
     | .fresh, _, _, _, _ => (d, "bad-op", "")
     | _, some h, some n, some ret, some as =>
-      if h < 16 ∧ n < 12 ∧ as.length ≤ 8 then
+      -- with a root window about, dropping the handlers' reference from inside a handler is not driven
+      if h < 16 ∧ n < 12 ∧ as.length ≤ 8 ∧ (d.kind ≥ 3 → Action.destroy ∉ as) then
         let crashed := impl.startsWith "CRASH"
         ({ d with behs := ((h, n), ⟨as, ret⟩) :: d.behs }, "ok", if crashed then "no_ub: the implementation crashed earlier in this history" else "")
       else (d, "bad-op", "")
@@ -501,24 +546,56 @@ def step (d : DSt) (ts : List String) (impl : String) : DSt × String × String 
     | .dead => (d, "dead", if impl = "dead" then "" else "no_ub: the implementation crashed earlier in this history")
     | .broken _ => (d, "ub", "no_ub: the implementation crashed earlier in this history")
     | .run =>
-      match parseOp ts with
+      let wop? : Option WOp := match parseOp ts with
+        | some op => some (.base op)
+        | none => if d.kind = 3 then parseRootOp ts else if d.kind = 4 ∧ ts = ["rootclose"] then some .rootClose else none
+      match wop? with
       | none => (d, "bad-op", "")
-      | some op =>
+      | some wop =>
         let own := ownerOf d.kind
         let beh := behOf d.behs
         -- model
-        let (d1, mobs) := match execOp genCfg own beh FUEL op d.st with
-          | .ok st' =>
-            ({ d with st := st', status := if op = Op.destroy || st'.dead then .dead else .run }, "log" ++ showSegment st'.log d.st.log)
-          | .ub w => ({ d with status := .broken w }, "ub:" ++ w.replace " " "_")
-          | .outOfFuel => ({ d with status := .broken "fuel" }, "out-of-fuel")
+        let (d1, mobs) :=
+          if d.kind = 3 then
+            match execW genCfg own beh FUEL wop { st := d.st, root := d.root, libKeys := d.libKeys } with
+            | .ok w' =>
+              -- did an operation of the application's (not the root window's own) unbind one of the root window's bindings?
+              let seg := w'.st.log.take (w'.st.log.length - d.st.log.length)
+              let foreign := (match wop with | .base .destroy => false | .base _ => true | _ => false) &&
+                seg.any (fun e => match e with | .unbindReq k => d.libKeys.contains k | _ => false)
+              ({ d with st := w'.st, root := w'.root, libKeys := w'.libKeys, outside := d.outside || foreign,
+                        status := if wop = .base .destroy || w'.st.dead then .dead else .run },
+               "log" ++ showSegment w'.st.log d.st.log w'.libKeys)
+            | .ub w => ({ d with status := .broken w }, "ub:" ++ w.replace " " "_")
+            | .outOfFuel => ({ d with status := .broken "fuel" }, "out-of-fuel")
+          else match wop with
+          | .base op =>
+            (match execOp genCfg own beh FUEL op d.st with
+            | .ok st' =>
+              ({ d with st := st', status := if op = Op.destroy || st'.dead then .dead else .run }, "log" ++ showSegment st'.log d.st.log)
+            | .ub w => ({ d with status := .broken w }, "ub:" ++ w.replace " " "_")
+            | .outOfFuel => ({ d with status := .broken "fuel" }, "out-of-fuel"))
+          -- win: `tickit_window_close` of the owner only sets `is_closed` (a root window has no parent): its bindings stay
+          | .rootClose => (d, "log")
+          | _ => (d, "bad-op")
         -- specification, on the implementation's observation
+        let begin : Spec.S → Spec.S := match wop with
+          | .base op => specBegin own op
+          -- a root window takes three slots of the harness's numbering (no handler of the application's behind them)
+          | .rootNew => fun s =>
+            let s := if s.rootRefs = 0 then { s with slots := s.slots ++ [(0, LIB_H), (0, LIB_H + 1), (0, LIB_H + 2)], rootRefs := 1 } else s
+            { s with stack := .quiet "tickit_window_new_root" :: s.stack }
+          | .rootRef => fun s =>
+            { s with rootRefs := if s.rootRefs = 0 then 0 else s.rootRefs + 1, stack := .quiet "tickit_window_ref of the root window" :: s.stack }
+          | .rootUnref => fun s =>
+            { s with rootRefs := s.rootRefs - 1, stack := .quiet "tickit_window_unref of the root window" :: s.stack }
+          | .rootClose => fun s => { s with stack := .quiet "tickit_window_close of the root window" :: s.stack }
         let itoks := toks impl
         let (spec', verdict) :=
-          if d.specBroken then (d.spec, "")
+          if d.specBroken || d.outside then (d.spec, "")
           else match itoks with
             | "log" :: rest =>
-              match Spec.checkOp own beh d.spec (specBegin own op) rest with
+              match Spec.checkOp own beh d.spec begin rest with
               | .ok s' => (s', "")
               | .error e => (d.spec, e)
             | "CRASH" :: _ => (d.spec, "no_ub: the implementation crashed (sanitizer abort or signal) during this operation")
